@@ -109,6 +109,9 @@ def gen_len(rng):
     return 31 + rng.below(20)          # .. 50
 
 
+LONG_LENGTHS = [64, 18, 100, 17, 65, 128, 33, 256, 63, 129, 200, 21, 20, 300, 1000]
+
+
 def gen_list(rng, nan_pct=8):
     profile = rng.choice(PROFILES)
     n = gen_len(rng)
@@ -553,6 +556,17 @@ def law_search(h, rng, nlists, res, targets=()):
             if xs:
                 break
         todo.append((xs, None, profile))
+    # long lists (a sort, selection or cache may switch algorithm with the size: insertion sort up to ~20,
+    # selection cut-offs at 16/64, small-vector capacities), several DIFFERENT lists of one length in a row in
+    # this one process (a cache keyed by anything but the contents answers for the previous list; round 4,
+    # seeds C15-7 / C15-8: both needed more than 16 resp. 64 elements, the generator stopped at 50)
+    for n in LONG_LENGTHS[:max(4, nlists // 40)]:
+        for _k in range(3):
+            profile = rng.choice(PROFILES)
+            xs = [gen_num(rng, profile) for _ in range(n)]
+            if _k == 2:
+                xs = sorted(xs, reverse=True)
+            todo.append((xs, None, profile + "/long"))
     for xs, p0, profile in todo:
         extra = [p0] if (p0 is not None and p0 == p0) else []
         ps = sorted(set(p for p in [0.0, 100.0] + extra + [gen_p(rng) for _ in range(4)] if 0 <= p <= 100))
